@@ -123,6 +123,10 @@ class ConcreteEnv(BaseEnv):
     def prove_eq(self, a, b, label):
         return self.prove(bytes(a) == bytes(b) if isinstance(a, (bytes, bytearray)) else a == b, label)
 
+    def satisfiable(self, cond, label):
+        """existential obligation: holds when the condition CAN be true (concretely: is true on this run)"""
+        return self.prove(cond, label)
+
     def observe(self, name, value):
         self.observed[name] = enc_val(value)
 
@@ -233,6 +237,24 @@ class SymEnv(BaseEnv):
         self.trace.append((label, False))
         self.violations.append((label, self.model_inputs(m)))
         return False
+
+    def satisfiable(self, cond, label):
+        """existential obligation: pc /\\ cond must be satisfiable; unsat is the violation"""
+        from .core import SymBool, SymInt
+        ctx = self.ctx
+        if isinstance(cond, SymInt):
+            cond = cond != 0
+        if not isinstance(cond, SymBool):
+            ok = bool(cond)
+        else:
+            r, m = ctx.check(cond.e)
+            ok = r == "sat"
+        self.trace.append((label, ok))
+        if ok:
+            self.held += 1
+        else:
+            self.violations.append((label, self.model_inputs(ctx.ensure_model())))
+        return ok
 
     def prove_eq(self, a, b, label):
         from .sbytes import SymBytes, items_of
